@@ -38,6 +38,12 @@ package workspace
 //@   requires idx != nil
 //@   modifies idx.tagValueCounts[*], idx.tagValueCounts[*][*]
 
+// The display formats the workspace hands to the formatter (parsed from commodity / D directives): decimal places are
+// counted from the format text.
+//@ trusted (*Workspace).GetCommodityFormats
+//@   ensures forall k string :: {result[k]} has(result, k) ==> result[k].DecimalPlaces >= 0 && result[k].DecimalPlaces < 2147483648
+//@   modifies w.cachedFormats
+
 //@ func sortedKeys
 //@   props C12 C15
 //@   ensures [fresh] fresh(result) || len(result) == 0
